@@ -649,7 +649,7 @@ func c09R4(c *Ctx) {
 	c.floor("C09.R4", 6)
 	ctor := p.Func(authPkg, "NewJWTVerifier")
 	verify := p.Func(authPkg, "JWTVerifier.Verify")
-	if ctor == nil || verify == nil || len(verify.AnonFuncs) == 0 {
+	if ctor == nil || verify == nil {
 		c.fail("C09.R4", "anchor/NewJWTVerifier+keyfunc", token.NoPos, "constructor or key function closure not found")
 		return
 	}
@@ -738,10 +738,26 @@ func c09R4(c *Ctx) {
 			c.check(guard && keySet, "C09.R4", fnName(ctor)+"/"+f.prefix+"-enabled-iff-key", st.Pos(), f.prefix+"* enabled exactly when "+f.confField+" is configured, with that key", why+"; facts "+factStrings(facts))
 		}
 	})
-	// keyfunc closure: returned key per case label
+	// key function: the function value handed to ParseWithClaims (closure or bound method)
 	var kf *ssa.Function
-	for _, a := range verify.AnonFuncs {
-		kf = a
+	allInstrs(verify, func(i ssa.Instruction) {
+		cl, ok := i.(*ssa.Call)
+		if !ok || !strings.HasSuffix(commonName(&cl.Call), "jwt/v5.ParseWithClaims") {
+			return
+		}
+		for _, a := range cl.Call.Args {
+			v := strip(a)
+			if ct, ok := v.(*ssa.ChangeType); ok {
+				v = ct.X
+			}
+			if mc, ok := v.(*ssa.MakeClosure); ok {
+				kf = unwrapWrapper(mc.Fn.(*ssa.Function))
+			}
+		}
+	})
+	if kf == nil {
+		c.fail("C09.R4", "anchor/key-function", verify.Pos(), "no key function passed to ParseWithClaims")
+		return
 	}
 	c.analysed(fnName(kf))
 	kfs := computeFacts(kf)
